@@ -151,6 +151,7 @@ func VerifyFunc(ld *Loader, db *ContractDB, fn *ssa.Function, ct *FuncContract, 
 				}
 			}
 		}
+		ex.checkGuardedEscape(fr, out, res)
 		if ct != nil {
 			for _, en := range ct.Ensures {
 				for _, part := range ex.splitClause(fr, out, res, en) {
@@ -467,6 +468,95 @@ func (ex *Exec) onUnlock(st *State, fr *Frame, k string, recv Val, pos token.Pos
 	for _, cj := range ex.invConjuncts(fr, st, ld, ref, ownerT) {
 		ex.oblige(st, fr, "lock-inv("+ld.MuField+")", token.NoPos, cj.text, cj.term)
 	}
+}
+
+// checkGuardedEscape: a function that returns with the lock released must
+// not hand out references to memory the lock guards (the caller would read or
+// write it unprotected): every reference in the results differs from the
+// references held in the guarded fields of the receiver.
+func (ex *Exec) checkGuardedEscape(fr *Frame, out *State, res []Val) {
+	if !ex.lockChecks || len(res) == 0 || len(fr.params) == 0 || fr.fn.Signature.Recv() == nil {
+		return
+	}
+	recv, ok := fr.params[0].(Sc)
+	if !ok {
+		return
+	}
+	pt, ok := fr.fn.Params[0].Type().Underlying().(*types.Pointer)
+	if !ok {
+		return
+	}
+	type resRef struct {
+		ref string
+		t   types.Type
+	}
+	var resRefs []resRef
+	rt := fr.fn.Signature.Results()
+	for i, r := range res {
+		switch kindOf(rt.At(i).Type()) {
+		case KSlice:
+			if a, ok := r.(*Agg); ok {
+				resRefs = append(resRefs, resRef{sc(a.F[0]).T, rt.At(i).Type()})
+			}
+		case KPtr, KMap:
+			if s, ok := r.(Sc); ok {
+				resRefs = append(resRefs, resRef{s.T, rt.At(i).Type()})
+			}
+		}
+	}
+	if len(resRefs) == 0 {
+		return
+	}
+	var visit func(a *Addr, t types.Type, depth int)
+	visit = func(a *Addr, t types.Type, depth int) {
+		st, ok := t.Underlying().(*types.Struct)
+		if !ok || depth > 2 || kindOf(t) != KStruct {
+			return
+		}
+		on := ownerName(t)
+		for _, ld := range ex.db.locks {
+			if ld.Owner != on {
+				continue
+			}
+			mi := fieldIndex(st, ld.MuField)
+			lk := a.ext(PathEl{Field: mi})
+			lk2 := *lk
+			lk2.Ref = canonTerm(lk.Ref)
+			if lockTerm(out, lk2.String()) == "true" {
+				continue // still held: the contract says so
+			}
+			for i := 0; i < st.NumFields(); i++ {
+				f := st.Field(i)
+				if !ld.Guarded[f.Name()] {
+					continue
+				}
+				var fref string
+				v := ex.load(out, a.ext(PathEl{Field: i}))
+				ex.validRefs(out, v, f.Type())
+				switch kindOf(f.Type()) {
+				case KSlice:
+					fref = sc(v.(*Agg).F[0]).T
+				case KMap, KPtr:
+					fref = sc(v).T
+				default:
+					continue
+				}
+				for _, rr := range resRefs {
+					// Go's type system rules out aliasing between differently typed references
+					if !types.Identical(rr.t.Underlying(), f.Type().Underlying()) {
+						continue
+					}
+					ex.oblige(out, fr, "guarded-escape("+f.Name()+")", token.NoPos, "a result aliases the guarded field "+f.Name(), or(eq(rr.ref, z64()), not(eq(rr.ref, fref))))
+				}
+			}
+		}
+		for i := 0; i < st.NumFields(); i++ {
+			if kindOf(st.Field(i).Type()) == KStruct {
+				visit(a.ext(PathEl{Field: i}), st.Field(i).Type(), depth+1)
+			}
+		}
+	}
+	visit(&Addr{Kind: AHeap, Root: pt.Elem(), Ref: recv.T, ArrLen: -1}, pt.Elem(), 0)
 }
 
 // guardedAccess: every field on the address path that a lock declaration
